@@ -238,7 +238,7 @@ def main(argv):
     ]
     cases = []
     treedefs = {}
-    for t in ("T1", "T2", "T3"):
+    for t in (("T1", "T2") if tier == "quick" else ("T1", "T2", "T3")):   # the three-level tree is model-checked in the thorough tier; quick reaches depth 3 through the random trees
         cfgname = f"MC_Subcommands_{tier}_{t}"
         mc = tlc.run("MC_Subcommands", cfgname, workers=16, timeout=3000, heap="12g")
         rep.add_tlc(cfgname, mc)
@@ -254,7 +254,7 @@ def main(argv):
         treedefs[t] = td[0]["nodes"]
         got.sort(key=lambda c: json.dumps(c["input"], sort_keys=True))
         rep.extra[f"behaviours_{t}"] = len(got)
-        stride = 1 if (tier == "thorough" or t == "T1") else (3 if t == "T2" else 40)
+        stride = 1 if (tier == "thorough" or t == "T1") else 3
         for n, c in enumerate(got):
             if n % stride == 0:
                 cases.append({"nodes": treedefs[t], "input": c["input"], "ref": c["ref"], "alg": c["alg"], "dev": c["dev"], "variant": n, "tree": t})
@@ -321,8 +321,8 @@ def main(argv):
     rep.evaluations = rep.traces
     rep.rule = ("cases = (tree, input) pairs: TLC's behaviours for three fixed trees plus random trees/inputs; non-trivial & distinct = distinct pairs whose parse succeeds "
                 "and actually selects a sub-command (at least two levels in the result)")
-    rep.exhaustive = tier == "thorough"
-    rep.explanation = (f"{len(cases)} of TLC's behaviours (T1/T2 complete, T2/T3 {'complete' if tier == 'thorough' else 'every 3rd / 40th'}) replayed on real parser trees; "
+    rep.exhaustive = False
+    rep.explanation = (f"{len(cases)} of TLC's behaviours (T1/T2 complete, T2 {'complete' if tier == 'thorough' else 'every 3rd'}, T3 {'complete' if tier == 'thorough' else 'thorough tier only'}) replayed on real parser trees; "
                        f"{len(rcases)} random (tree, input) pairs validated by TLC against Trace_Subcommands. Exhaustive w.r.t. the three fixed trees and the input grammar of MC_Subcommands only.")
     return rep.finish()
 
